@@ -32,6 +32,8 @@ func init() {
 			"NOT decided: which trigger becomes true first for a given dialogue/segmentation (run-time values).",
 		Assumptions: []string{"bytes.Contains / regexp.Match are the library predicates they name"},
 		Mutants: []Mutant{
+			{ID: "C18-echo-read-before-callbacks", Desc: "SendWithCallbacks reads its own echo before the callback loop", Rule: "C18/no-private-read",
+				Edits: []Edit{{File: "driver/generic/sendwithcallbacks.go", Old: "\t\terr := d.Channel.WriteAndReturn([]byte(input), false)\n\t\tif err != nil {\n\t\t\treturn nil, err\n\t\t}\n", New: "\t\terr := d.Channel.WriteAndReturn([]byte(input), false)\n\t\tif err != nil {\n\t\t\treturn nil, err\n\t\t}\n\n\t\tectx, ecancel := context.WithTimeout(context.Background(), timeout)\n\n\t\t_, err = d.Channel.ReadUntilFuzzy(ectx, []byte(input))\n\n\t\tecancel()\n\n\t\tif err != nil {\n\t\t\treturn nil, err\n\t\t}\n"}}},
 			{ID: "C18-next-timeout-skips-reset", Desc: "a callback with a next-timeout continues without resetting the output", Rule: "C18/execute",
 				Edits: []Edit{{File: "driver/generic/sendwithcallbacks.go", Old: "\tif cb.ResetOutput {\n\t\tb = nil\n\t}\n\n\tnt := t\n\tif cb.NextTimeout != 0 {\n\t\tnt = cb.NextTimeout\n\t}\n\n\treturn d.handleCallbacks(callbacks, b, fb, nt)", New: "\tif cb.NextTimeout != 0 {\n\t\treturn d.handleCallbacks(callbacks, b, fb, cb.NextTimeout)\n\t}\n\n\tif cb.ResetOutput {\n\t\tb = nil\n\t}\n\n\treturn d.handleCallbacks(callbacks, b, fb, t)"}}},
 			{ID: "C18-notcontains-inverted", Desc: "not-contains test inverted again", Rule: "C18/trigger-table",
